@@ -35,9 +35,15 @@ func RunMangle(p Params) *Result {
 	s := NewSeq(w, cfg, &prof, pools, kept)
 	mr := r.Fork(8)
 	var muts []string
-	s.Hooks.Final = func(s *Seq) { muts = s.mangleScenario(mr) }
+	started := false
+	s.Hooks.Final = func(s *Seq) { started = true; muts = s.mangleScenario(mr) }
 	cfg0 := *cfg
 	s.Run()
+	if w.OverSteps && s.V == nil && started {
+		// a handful of calls on a small damaged collection cannot need millions of
+		// scheduling points: a call is looping (every file-system call is one)
+		s.V = &Violation{Tag: "mangle", Sig: "mangle:hang:step-budget", Msg: fmt.Sprintf("after the damage a call did not return within the step budget (%d scheduling points): it loops", w.Steps), Op: "mangle"}
+	}
 	res := &Result{Params: p, V: s.V, Digest: w.Digest(), Class: cfg0.Class() + " " + mutClass(muts), Steps: w.Steps,
 		SimMs: int64(w.Now() / 1e6), NOps: len(kept), Stats: s.Stats, Config: cfg0.String(), Faults: map[string]int{}}
 	for k, v := range s.Stats {
@@ -407,7 +413,54 @@ func mutateIndex(r *simrt.Rand, doc schemaDoc) string {
 	fi, _ := fis[name].(map[string]interface{})
 	idx, _ := fi["index"].([]interface{})
 	tuple := func(i int) []interface{} { t, _ := idx[i].([]interface{}); return t }
-	switch r.Intn(8) {
+	switch r.Intn(12) {
+	case 8: // the index claims to be the one of another field (values are fetched by that name)
+		others := []string{"S", "I64", "T", "F64", "Lid", "P.S", "NoSuchField"}
+		o := others[r.Intn(len(others))]
+		if o == name {
+			return ""
+		}
+		fi["name"] = o
+		return "renamed-to-" + o + " " + name
+	case 9: // an object id at the end of the range: the id counter would wrap
+		oids := doc.objectIds()
+		var ks []string
+		for k := range oids {
+			ks = append(ks, k)
+		}
+		sort.Strings(ks)
+		if len(ks) == 0 {
+			return ""
+		}
+		k := ks[r.Intn(len(ks))]
+		v := oids[k]
+		delete(oids, k)
+		oids["18446744073709551615"] = v
+		for _, n := range names {
+			f, _ := fis[n].(map[string]interface{})
+			ix, _ := f["index"].([]interface{})
+			for _, t := range ix {
+				if tu, ok := t.([]interface{}); ok && len(tu) == 2 && fmt.Sprint(tu[1]) == k {
+					tu[1] = json.Number("18446744073709551615")
+				}
+			}
+		}
+		return "max-object-id"
+	case 10: // the index does not enforce what its field calls for
+		c, _ := fi["constraints"].(map[string]interface{})
+		if c == nil {
+			c = map[string]interface{}{}
+			fi["constraints"] = c
+		}
+		if u, _ := c["unique"].(bool); u {
+			delete(c, "unique")
+		} else {
+			c["unique"] = true
+		}
+		return "other-constraints " + name
+	case 11: // object files outside the directory of the collection
+		doc["extension"] = []string{"/../schema.json", "/x", "a/b.json", `\x`}[r.Intn(4)]
+		return "extension-with-separator"
 	case 0: // one entry takes the object id of another one (count and order intact)
 		if len(idx) < 2 {
 			return ""
